@@ -154,6 +154,19 @@ pub fn gen_label(r: &mut Rng, pool: bool) -> Vec<u8> {
 }
 
 pub fn gen_name(r: &mut Rng, pool: bool) -> GName {
+    if r.chance(1, 40) {
+        // a name at or beyond the 255-octet limit: four or five labels of 61..63 octets
+        // (wire length 249..321); readers that build an owned name must refuse the long ones
+        let n = r.range(4, 5);
+        return GName {
+            labels: (0..n)
+                .map(|_| {
+                    let len = r.range(61, 63) as usize;
+                    (0..len).map(|i| if i == 0 || i + 1 == len { b'q' } else { *r.pick(LABEL_CHARS) }).collect()
+                })
+                .collect(),
+        };
+    }
     let n = match r.below(10) {
         0 => 0,
         1..=6 => r.range(1, 3),
